@@ -109,6 +109,11 @@ def inv_kpoints(w, k, base):
 
     def prep(c):
         c.fields["is_built"] = False
+        # the reference is what build() makes of the INPUTS: the derived fields start from values that have nothing to do with the current ones (fresh
+        # symbols), so a branch of build() that keeps one of them (weights of an earlier k-point set with the same count) cannot satisfy the invariant
+        # (_Nk is not reset: in band-path mode the requested number of points is an input)
+        for d in ("_wk", "_k", "_k_scaled"):
+            c.fields[d] = named(w, f"unrelated.{d}")
 
     conj = []
     for pc, st in built_states(w, k, prep, "build", base, ext=EXT):
@@ -148,6 +153,9 @@ def inv_atoms(w, a, base, sub_objects_only=False):
 
     def prep(c):
         c.fields["is_built"] = False
+        # as for KPoints / Occupations: the reference build starts from grid quantities that have nothing to do with the current ones
+        for d in A_DERIVED:
+            c.fields[d] = named(w, f"unrelated.{d}")
 
     conj = []
     for pc, st in built_states(w, a, prep, "build", base, ext=EXT_ATOMS):
